@@ -91,6 +91,8 @@ def sample_from_symbol(sym):
         return {} if sym[2] == ABSENT else {sym[1]: value(sym[2])}
     if tag == "G":
         return graph_object(sym[1])
+    if tag == "S":      # ['S', grammar class, string]: single field a holding a string of the C09 grammar
+        return {"a": sym[2]}
     raise ValueError(sym)
 
 
@@ -103,6 +105,8 @@ def symbol_name(sym):
         return "G" + graph_name(sym[1])
     if sym[0] == "K":
         return f"K({sym[1]}:{sym[2]})"
+    if sym[0] == "S":
+        return string_form(sym[1], sym[2])
     return "J" + repr(sym[1])
 
 
@@ -298,3 +302,53 @@ def varied_merge_samples(v0, v1, v2, rows_first=False):
 
 
 VARIED_ATOMS = ["int", "float", "true", "lit_a", "s_int", "null", "L(int)", "elist", "O(k:int)"]
+
+
+# --- reference classification of strings (independent of the library's parsers) ---------------------------------------------
+_FORMS = None
+
+
+def string_form(cls, s):
+    """'canon:<kind>' for the canonical spelling of an int / float / bool / ISO date / time / datetime (the spellings every
+    framework's own parser agrees on), else 'form:<grammar class>' - the shape vocabulary for string-valued findings"""
+    global _FORMS
+    import datetime
+    import re
+    if _FORMS is None:
+        t = r"(\d{2}):(\d{2})(?::(\d{2})(?:\.\d{1,6})?)?(Z|[+-](\d{2}):(\d{2}))?"
+        _FORMS = {
+            "int": re.compile(r"-?(0|[1-9][0-9]*)"),
+            "float": re.compile(r"-?(0|[1-9][0-9]*)\.[0-9]+"),
+            "date": re.compile(r"(\d{4})-(\d{2})-(\d{2})"),
+            "time": re.compile(t),
+            "datetime": re.compile(r"(\d{4})-(\d{2})-(\d{2})T" + t),
+        }
+    if not s.isascii():
+        return "form:" + cls
+    if _FORMS["int"].fullmatch(s) and len(s) < 18:
+        return "canon:int"
+    if _FORMS["float"].fullmatch(s) and len(s) < 17:
+        return "canon:float"
+    if s in ("true", "false", "True", "False"):
+        return "canon:bool"
+
+    def time_ok(g):
+        h, m, sec, tz, th, tm = g
+        return int(h) < 24 and int(m) < 60 and (sec is None or int(sec) < 60) and (th is None or (int(th) < 15 and int(tm) < 60))
+
+    def date_ok(g):
+        try:
+            datetime.date(int(g[0]), int(g[1]), int(g[2]))
+            return True
+        except ValueError:
+            return False
+    m = _FORMS["date"].fullmatch(s)
+    if m and date_ok(m.groups()):
+        return "canon:date"
+    m = _FORMS["time"].fullmatch(s)
+    if m and time_ok(m.groups()):
+        return "canon:time"
+    m = _FORMS["datetime"].fullmatch(s)
+    if m and date_ok(m.groups()[:3]) and time_ok(m.groups()[3:]):
+        return "canon:datetime"
+    return "form:" + cls
